@@ -182,7 +182,7 @@ func TestVerifC13(t *testing.T) {
 // ------------------------------------------------------------------ part 1: equality
 
 func c13Equal(r *verifkit.Run) {
-	n := r.N(24000, 1200000)
+	n := r.N(24000, 240000)
 	workers := 8
 	r.Parallel(workers, "equal", func(w *verifkit.Worker) {
 		rnd := w.Rnd
@@ -255,7 +255,7 @@ func c13Equal(r *verifkit.Run) {
 // ------------------------------------------------------------------ part 2: TCP framing
 
 func c13TCP(r *verifkit.Run) {
-	n := r.N(3000, 150000)
+	n := r.N(3000, 30000)
 	workers := 4
 	r.Parallel(workers, "tcp", func(w *verifkit.Worker) {
 		rnd := w.Rnd
@@ -334,7 +334,7 @@ func c13TCP(r *verifkit.Run) {
 // garbage) and hostile handshakes; the reference walks the stream by the documented
 // framing rule: 4-byte little-endian length, at most MaxTCPFrameBody.
 func c13TCPHostile(r *verifkit.Run) {
-	n := r.N(3000, 150000)
+	n := r.N(3000, 30000)
 	workers := 4
 	r.Parallel(workers, "tcp-hostile", func(w *verifkit.Worker) {
 		rnd := w.Rnd
@@ -548,7 +548,7 @@ func c13Robust(r *verifkit.Run) {
 		r.Inconclusive("VERIF_SELF not set: cannot re-exec children for the robustness corpus")
 		return
 	}
-	total := r.N(200000, 10000000)
+	total := r.N(200000, 2000000)
 	per := r.N(12500, 50000)
 	nb := total / per
 	dir := r.MkTmp("c13robust")
